@@ -14,8 +14,9 @@ def generate():
         {"libp2p": "crate::shim::libp2p", "std": "crate::shim::std"},
         subs=[("#[cfg(target_arch = \"wasm32\")]\npub use wasmtimer::std::SystemTime;", "", 1)],
         # type-level: outside its two constants, every u64 this file could name is a number of seconds taken from the
-        # (symbolic) clock -- e.g. a helper extracted by a refactor that returns Option<u64> (none exists today)
-        post=lambda body: "\n".join(l if re.match(r"\s*(pub(\([^)]*\))?\s+)?const\s", l) else re.sub(r"\bu64\b", "crate::shim::SymSecs", l) for l in body.split("\n")),
+        # (symbolic) clock -- e.g. a helper extracted by a refactor that returns Option<u64> (none exists today); numeric casts
+        # `x as u64` of native integers stay native
+        post=lambda body: "\n".join(l if re.match(r"\s*(pub(\([^)]*\))?\s+)?const\s", l) else re.sub(r"(?<!as )\bu64\b", "crate::shim::SymSecs", l) for l in body.split("\n")),
         append='#[path = "../h_quote.rs"]\npub mod harness;\n',
         require=["fn verify_for", "fn check_is_signed_by_claimed_peer", "fn has_expired", "fn bytes_for_signing", "fn historical_verify"]))
     # ant-protocol scratchpad with a symbolic counter (explicit, checked type substitutions)
